@@ -126,7 +126,8 @@ def prove(prop, gen_modules, dyn_files, static_deps=()):
         spec = kernels.MODULES[m]
         target = os.path.join(bdir, f'Gen_{m}.v')
         try:
-            text = py2gallina.translate_module(os.path.join(REPO, spec['file']), spec['kernels'], kernels.PYCTR_ERRS)
+            text = py2gallina.translate_module(os.path.join(REPO, spec['file']), spec['kernels'], kernels.PYCTR_ERRS,
+                                               imports=spec.get('imports', ()), extfuncs=spec.get('extfuncs'))
         except py2gallina.Unsupported as e:
             res.ok = False
             res.failed.append((f'translator:{m}', f'source no longer in the translatable subset: {e}'))
